@@ -271,7 +271,7 @@ class file_store(base_store):
         with open(fname, 'rb') as ifile:
             try:
                 import numpy as np
-                return np.lib.format.read_array(ifile)
+                return np.lib.format.read_array(ifile, allow_pickle=True)
             except ValueError:
                 ifile.seek(0)
             except ImportError:
